@@ -118,9 +118,14 @@ def check_case(ctx, gdf, areas, resp, res, stream, meta, route="function"):
             "index": [str(i) for i in gdf.index], "uids": list(gdf["uid"]), "route": route, "z": bool(any(g.has_z for g in gdf.geometry.values))}
     if any(touch):
         case["finding_key"] = F20_KEY
+    # coordinate reference systems as users have them: on both layers, on one of them only (a layer saved without one), on neither
+    crs_mode = meta.get("crs", "none")
+    if crs_mode in ("traces", "both") and gdf.crs is None:
+        gdf = gdf.set_crs("EPSG:3067")
+    area_gdf = gpd.GeoDataFrame(geometry=list(areas), crs="EPSG:3067" if crs_mode in ("areas", "both") else None)
     before = gdf.copy(deep=True)
-    area_gdf = gpd.GeoDataFrame(geometry=list(areas))
     area_before = area_gdf.copy(deep=True)
+    crs_before = (gdf.crs, area_gdf.crs)
     nothing_inside = not any(length_of(pc) > MINIMUM_LINE_LENGTH for pcs in per_trace for pc in pcs)
     try:
         if route == "network":
@@ -145,6 +150,8 @@ def check_case(ctx, gdf, areas, resp, res, stream, meta, route="function"):
         problems.append("the caller's trace frame was modified")
     if not (area_before.index.equals(area_gdf.index) and area_before.geometry.geom_equals(area_gdf.geometry).all()):
         problems.append("the caller's area frame was modified")
+    if (gdf.crs, area_gdf.crs) != crs_before:
+        problems.append(f"the coordinate reference system of a caller's frame was changed: {crs_before} -> {(gdf.crs, area_gdf.crs)}")
     if not all(isinstance(g, LineString) for g in out.geometry.values):
         problems.append("multi-part or non-line geometry in the output")
         out = out.loc[[isinstance(g, LineString) for g in out.geometry.values]]
@@ -184,6 +191,7 @@ def check_case(ctx, gdf, areas, resp, res, stream, meta, route="function"):
     res.distribution["rows_outside"] = res.distribution.get("rows_outside", 0) + sum(1 for k in npieces if k == 0)
     res.distribution[f"areas_{meta['areas']}"] = res.distribution.get(f"areas_{meta['areas']}", 0) + 1
     res.distribution[f"index_{meta['index']}"] = res.distribution.get(f"index_{meta['index']}", 0) + 1
+    res.distribution[f"crs_{crs_mode}"] = res.distribution.get(f"crs_{crs_mode}", 0) + 1
     if any(k > 1 for k in npieces):
         res.nontrivial += 1
     if len(res.samples) < 2:
@@ -194,7 +202,7 @@ def check_case(ctx, gdf, areas, resp, res, stream, meta, route="function"):
 
 def s07_crop(ctx):
     import_fractopo()
-    res = StreamResult("S07-crop", rule="frames of 1..9 polylines (crossing the boundary 0..k times, on it, outside) with attribute columns (one named "
+    res = StreamResult("S07-crop", rule="frames of 1..9 polylines (crossing the boundary 0..k times, on it, outside; a CRS on both layers / the traces only / the areas only / neither) with attribute columns (one named "
                        "'length') and index labels (default, ints, strings, reversed, duplicated) x box / concave / holed / multipolygon / two rows "
                        "(disjoint, overlapping); non-trivial = some row is cut into several pieces")
     rng = rng_for(ctx.seed, "S07")
@@ -202,7 +210,10 @@ def s07_crop(ctx):
     for _ in range(budget(ctx.tier, 250, 6000)):
         kind, areas = gen_areas(rng)
         gdf, idx_mode = gen_frame(rng, areas)
-        cases.append((gdf, areas, {"areas": kind, "index": idx_mode}))
+        crs_mode = rng.choice(["none", "none", "traces", "areas", "both"])
+        if crs_mode in ("traces", "both"):
+            gdf = gdf.set_crs("EPSG:3067")
+        cases.append((gdf, areas, {"areas": kind, "index": idx_mode, "crs": crs_mode}))
     reqs = [f"clip areas={area_rows(a)} traces={lines([list(g.coords) for g in gdf.geometry.values])}" for gdf, a, _ in cases]
     resps = ctx.driver.parallel(reqs)
     for (gdf, areas, meta), resp in zip(cases, resps):
@@ -231,8 +242,11 @@ def s07_network(ctx):
         if z:
             gdf = add_z(gdf, rng.randint(0, 12))
         kind2, areas2 = gen_areas(rng)
-        cases.append((gdf, areas, {"areas": kind, "index": idx_mode, "z": z, "step": 1}))
-        cases.append((gdf, areas2, {"areas": kind2, "index": idx_mode, "z": z, "step": 2}))
+        crs_mode = rng.choice(["none", "none", "traces", "areas", "both"])
+        if crs_mode in ("traces", "both"):
+            gdf = gdf.set_crs("EPSG:3067")
+        cases.append((gdf, areas, {"areas": kind, "index": idx_mode, "z": z, "step": 1, "crs": crs_mode}))
+        cases.append((gdf, areas2, {"areas": kind2, "index": idx_mode, "z": z, "step": 2, "crs": crs_mode}))
     reqs = [f"clip areas={area_rows(a)} traces={lines([xy(g) for g in gdf.geometry.values])}" for gdf, a, _ in cases]
     resps = ctx.driver.parallel(reqs)
     for (gdf, areas, meta), resp in zip(cases, resps):
